@@ -145,6 +145,12 @@ def run_property(pid, tier, seed, replay=None):
     lines = []
     for fid, (f, n) in sorted(known_hits.items()):
         lines.append(f"KNOWN-FINDING: property={pid} {fid} {f['what']} ({n} witnesses this run)")
+    # every listed finding of this property is announced, also when this run's sample did not hit it (some witnesses depend on
+    # the generator seed or on ARPACK's random start vector)
+    if replay is None:
+        for f in known:
+            if f.get("kind") == "known" and f.get("property") == pid and f["id"] not in known_hits:
+                lines.append(f"KNOWN-FINDING: property={pid} {f['id']} {f['what']} (0 witnesses this run)")
     exit_code = 0
     replay_paths = []
     if new_viols:
